@@ -170,6 +170,8 @@ def check(model, rep, tier):
     routing_clause(model, rep, funcs)
     from . import C01_frames
     C01_frames.frames_clause(model, rep, funcs)
+    from .C03 import batch_task_order_obligation
+    batch_task_order_obligation(model, rep, "4 routing")
     ncen = 0
     for a in ("acryo/alignment/_base.py::AlignmentResult.affine_matrix", "acryo/alignment/_base.py::RotationImplemented._get_template_and_mask_input"):
         try:
